@@ -119,6 +119,18 @@ theorem extraction_consumes_helpers (es out : List Ev) (h : extractAll es = .ok 
   obtain ⟨_, _, r⟩ := extractAll_inv outInv_noF es out (fun _ _ _ _ _ => trivial) (fun _ _ _ => trivial) h
   exact r
 
+/-! ### group completion is detected -/
+
+/-- **Complete group detected, for every arrival order.**  `c : ChainSpec` describes the helper events of one
+complete chain all-reduce of `c.R ≥ 2` ranks (`c.OK`): for `r < R−1` the single cast `r → r+1` and its DONE
+receive on rank `r+1` (sync tag `tag r`), and with sync tag `mtag` the BC list on the last rank naming the
+ranks `0..R−2`, one segment send per other rank, the multicast, and a DONE receive on every other rank;
+timestamps, durations, tids and names are arbitrary.  Then `detect_final` holds of **every permutation** of
+these `4R − 2` events: the per-sync-group counters are order-independent folds. -/
+theorem complete_group_detected (c : ChainSpec) (ok : c.OK) (q : List Q) (hp : q.Perm c.list) :
+    detectFinal q = true :=
+  detectFinal_chain c ok q hp
+
 /-! ### completeness, under the two hypotheses that the current code needs -/
 
 /-- all helper events of CollGroup `g`, in arrival order: the queue the group holds once everything has arrived -/
@@ -264,6 +276,43 @@ example : ¬ NoPrefixFinal (groupQueue "G1" backToBack) := by
     (List.take_append_drop 4 _) (by decide +kernel)
   revert this
   decide +kernel
+/-- `complete_group_detected` applies to the ten helper events of `G1` (R = 3) -/
+def wq : List Q := helperQueue (g1chain ++ g1mcast)
+def wd : Q := ⟨mk 0 0 0 0 1 "" "" "" none, ⟨"", "", [], 0⟩, 1⟩
+def wspec : ChainSpec :=
+  { R := 3, tag := fun r => if r = 0 then "G1_a" else "G1_b", mtag := "G1_m",
+    snd := fun r => wq.getD (2 * r) wd, rcv := fun r => wq.getD (2 * r + 1) wd, bc := wq.getD 4 wd,
+    xs := fun p => wq.getD (5 + p) wd, md := wq.getD 7 wd, mr := fun p => wq.getD (8 + p) wd }
+example : wspec.list = wq ∧ wq.length = 10 := by decide +kernel
+example : wspec.OK where
+  two := by decide
+  tag_inj := by
+    intro i j hi hj h
+    have hi' : i = 0 ∨ i = 1 := by simp only [wspec] at hi; omega
+    have hj' : j = 0 ∨ j = 1 := by simp only [wspec] at hj; omega
+    rcases hi' with rfl | rfl <;> rcases hj' with rfl | rfl <;> first | rfl | (revert h; decide)
+  mtag_ne := by
+    intro i hi
+    have hi' : i = 0 ∨ i = 1 := by simp only [wspec] at hi; omega
+    rcases hi' with rfl | rfl <;> decide
+  snd := by
+    intro r hr
+    have hr' : r = 0 ∨ r = 1 := by simp only [wspec] at hr; omega
+    rcases hr' with rfl | rfl <;> decide +kernel
+  rcv := by
+    intro r hr
+    have hr' : r = 0 ∨ r = 1 := by simp only [wspec] at hr; omega
+    rcases hr' with rfl | rfl <;> decide +kernel
+  bc := by decide +kernel
+  xs := by
+    intro r hr
+    have hr' : r = 0 ∨ r = 1 := by simp only [wspec] at hr; omega
+    rcases hr' with rfl | rfl <;> decide +kernel
+  md := by decide +kernel
+  mr := by
+    intro r hr
+    have hr' : r = 0 ∨ r = 1 := by simp only [wspec] at hr; omega
+    rcases hr' with rfl | rfl <;> decide +kernel
 /-- a run that raises: a sync-tagged slice without `jobhash` (KeyError) — the theorems speak about `.ok` runs only -/
 example : errOf (runFlow [{ (mk 1 0 1 10 5 "S_1 [sync=a] DmaO" "G" "SingleCast" (some "1")) with
     args := some { peer := some (.str "1"), typ := some "SingleCast" } }]) = some .key := by decide +kernel
